@@ -86,34 +86,34 @@ def check_argmax(rep, pdb, fn, key, want_lo, want_hi, row_pos, col_term, want_id
     return am
 
 
-def run(rep, pdb, tier):
-    solve_fns = [f for f in pdb.local_fns() if f["file"] == "src/matrix/solve.rs"]
-    n_sites = rule_index_kinds(rep, pdb, solve_fns)
-    n_cmp = rule_magnitude(rep, pdb, ["%s::solve_basic" % M, "%s::solve_lu" % M])
-    # ---- Gaussian elimination
-    mac = fn_or_missing(rep, pdb, "%s::max_abs_in_column" % M, "anchor/max_abs_in_column")
-    if mac is not None:
-        check_argmax(rep, pdb, mac, "max_abs_in_column", P(2), ROWS, 1, lambda c: P(1))
-    pp = fn_or_missing(rep, pdb, "%s::partial_pivot" % M, "anchor/partial_pivot")
-    if pp is not None:
-        ctx = Ctx.for_fn(pdb, pp)
-        calls = {callee_path(n): n for n in walk(pp["body"]) if n.get("k") == "MethodCall"}
-        srch = calls.get("%s::max_abs_in_column" % M)
-        sw = calls.get("%s::swap_rows" % M)
-        xs = calls.get("vector::Vector<T>::swap")
-        ok_s = srch is not None and [ctx.term(a) for a in call_args(srch)] == [P(0), P(2), P(2)]
-        rep.add("search-range/partial_pivot", "the column searched and the first row searched are both the elimination index k", ok_s, srch or pp["body"],
-                "max_abs_in_column args=%s" % ([show(ctx.term(a), ctx) for a in call_args(srch)] if srch else None))
-        ok_x = sw is not None and xs is not None
-        det = ""
-        if ok_x:
-            a = [ctx.term(x) for x in call_args(sw)]
-            b = [ctx.term(x) for x in call_args(xs)]
-            piv = ctx.term(srch) if srch is not None else None
-            ok_x = a[0] == P(0) and b[0] == P(1) and set(a[1:]) == set(b[1:]) == {piv, P(2)}
-            det = "swap_rows(%s) x.swap(%s)" % (", ".join(show(t, ctx) for t in a[1:]), ", ".join(show(t, ctx) for t in b[1:]))
-        rep.add("exchange-pair/partial_pivot", "the matrix row exchange and the right-hand-side exchange use the same index pair {pivot, k}", ok_x, sw or pp["body"], det)
-    gw = fn_or_missing(rep, pdb, "%s::gauss_with_pivot" % M, "anchor/gauss_with_pivot")
+def check_lu_elimination(rep, pdb, lu, key):
+    """Doolittle step of lu_decomp_in_place: total loops, multiplier a_ji/a_ii stored at (j,i), row update over i+1..rows."""
+    ctx = Ctx.for_fn(pdb, lu)
+    outer = [n for n in walk(lu["body"]) if n.get("k") == "For"][0]
+    ro = raw_for_range(ctx, outer)
+    i = ro[0]
+    effs = effects(pdb, ctx)
+    divs = [e for e in effs if e.kind == "upd" and e.op == "/=" and e.target == P(0)]
+    subs = [e for e in effs if e.kind == "upd" and e.op == "-=" and e.target == P(0)]
+    ok, det = len(divs) == 1 and len(subs) == 1, "multiplier stores=%d row updates=%d" % (len(divs), len(subs))
+    if ok:
+        dv, su = divs[0], subs[0]
+        rj = for_range(ctx, dv.loops[1]) if len(dv.loops) > 1 else None
+        rk = for_range(ctx, su.loops[2]) if len(su.loops) > 2 else None
+        j = rj[0] if rj else None
+        k = rk[0] if rk else None
+        okd = dv.index == ("tup", j, i) and dv.value == ("idx", P(0), ("tup", i, i))
+        oks = su.index == ("tup", j, k) and su.value == ("op", "*", ("idx", P(0), ("tup", j, i)), ("idx", P(0), ("tup", i, k)))
+        okr = ro[1] == num(0) and ro[2] == ROWS and rj is not None and rj[1] == lin_add(i, num(1)) and rj[2] == ROWS and rk is not None and rk[1] == lin_add(i, num(1)) and rk[2] == ROWS
+        ok = okd and oks and okr
+        det = "l_ji = a_ji / a_ii=%s a_jk -= l_ji*a_ik=%s ranges i:0..rows, j,k:i+1..rows with no early exit=%s" % (okd, oks, okr)
+    rep.add(key, "Doolittle step: the multiplier a_ji/a_ii (pivot is the divisor) is stored at (j,i) and used for the row update over columns i+1..rows, for EVERY row j in i+1..rows",
+            ok, lu["body"], det, where=loc(lu["body"]))
+
+
+def check_gauss(rep, pdb, key):
+    """Gaussian elimination with partial pivoting: one multiplier for matrix row and rhs entry, total loops."""
+    gw = fn_or_missing(rep, pdb, "%s::gauss_with_pivot" % M, "anchor/" + key)
     if gw is not None:
         ctx = Ctx.for_fn(pdb, gw)
         effs = effects(pdb, ctx)
@@ -142,8 +142,38 @@ def run(rep, pdb, tier):
             ok = piv_ok and mult_ok and rows_ok and rng_ok
             det = "pivot each step=%s multiplier=%s (same in both updates, pivot is the divisor)=%s row ops pair=%s ranges k:0..rows-1,i:k+1..rows,j:k..rows=%s" % (
                 piv_ok, show(mdef, ctx) if mdef else None, mult_ok, rows_ok, rng_ok)
-        rep.add("row-op-pair/gauss_with_pivot", "elimination applies one multiplier m = a_ik/a_kk to matrix row i (columns k..) and to x[i], for i in k+1..rows, after pivoting at each k in 0..rows-1",
+        rep.add(key, "elimination applies one multiplier m = a_ik/a_kk to matrix row i (columns k..) and to x[i], for i in k+1..rows, after pivoting at each k in 0..rows-1",
                 ok, gw["body"], det, where=loc(gw["body"]))
+
+
+def run(rep, pdb, tier):
+    solve_fns = [f for f in pdb.local_fns() if f["file"] == "src/matrix/solve.rs"]
+    n_sites = rule_index_kinds(rep, pdb, solve_fns)
+    n_cmp = rule_magnitude(rep, pdb, ["%s::solve_basic" % M, "%s::solve_lu" % M])
+    # ---- Gaussian elimination
+    mac = fn_or_missing(rep, pdb, "%s::max_abs_in_column" % M, "anchor/max_abs_in_column")
+    if mac is not None:
+        check_argmax(rep, pdb, mac, "max_abs_in_column", P(2), ROWS, 1, lambda c: P(1))
+    pp = fn_or_missing(rep, pdb, "%s::partial_pivot" % M, "anchor/partial_pivot")
+    if pp is not None:
+        ctx = Ctx.for_fn(pdb, pp)
+        calls = {callee_path(n): n for n in walk(pp["body"]) if n.get("k") == "MethodCall"}
+        srch = calls.get("%s::max_abs_in_column" % M)
+        sw = calls.get("%s::swap_rows" % M)
+        xs = calls.get("vector::Vector<T>::swap")
+        ok_s = srch is not None and [ctx.term(a) for a in call_args(srch)] == [P(0), P(2), P(2)]
+        rep.add("search-range/partial_pivot", "the column searched and the first row searched are both the elimination index k", ok_s, srch or pp["body"],
+                "max_abs_in_column args=%s" % ([show(ctx.term(a), ctx) for a in call_args(srch)] if srch else None))
+        ok_x = sw is not None and xs is not None
+        det = ""
+        if ok_x:
+            a = [ctx.term(x) for x in call_args(sw)]
+            b = [ctx.term(x) for x in call_args(xs)]
+            piv = ctx.term(srch) if srch is not None else None
+            ok_x = a[0] == P(0) and b[0] == P(1) and set(a[1:]) == set(b[1:]) == {piv, P(2)}
+            det = "swap_rows(%s) x.swap(%s)" % (", ".join(show(t, ctx) for t in a[1:]), ", ".join(show(t, ctx) for t in b[1:]))
+        rep.add("exchange-pair/partial_pivot", "the matrix row exchange and the right-hand-side exchange use the same index pair {pivot, k}", ok_x, sw or pp["body"], det)
+    check_gauss(rep, pdb, "row-op-pair/gauss_with_pivot")
     bs = fn_or_missing(rep, pdb, "%s::backsolve" % M, "anchor/backsolve")
     if bs is not None:
         ctx = Ctx.for_fn(pdb, bs)
@@ -228,24 +258,7 @@ def run(rep, pdb, tier):
             det = "same pair=%s under `imax != i`=%s companion is eye(rows)=%s returned as .1=%s" % (same_pair, cond_ok, perm_ok, ret_ok)
         rep.add("exchange-pair/lu_decomp_in_place", "every row exchange of the matrix is mirrored on the permutation (an identity of order rows) with the same index pair, in the same guard context",
                 ok, sws[0] if sws else lu["body"], det)
-        # elimination: multiplier stored in (j,i) = a_ji / a_ii, row update uses it
-        effs = effects(pdb, ctx)
-        divs = [e for e in effs if e.kind == "upd" and e.op == "/=" and e.target == P(0)]
-        subs = [e for e in effs if e.kind == "upd" and e.op == "-=" and e.target == P(0)]
-        ok, det = len(divs) == 1 and len(subs) == 1, ""
-        if ok:
-            dv, su = divs[0], subs[0]
-            rj = for_range(ctx, dv.loops[1]) if len(dv.loops) > 1 else None
-            rk = for_range(ctx, su.loops[2]) if len(su.loops) > 2 else None
-            j = rj[0] if rj else None
-            k = rk[0] if rk else None
-            okd = dv.index == ("tup", j, i) and dv.value == ("idx", P(0), ("tup", i, i))
-            oks = su.index == ("tup", j, k) and su.value == ("op", "*", ("idx", P(0), ("tup", j, i)), ("idx", P(0), ("tup", i, k)))
-            okr = ro[1] == num(0) and ro[2] == ROWS and rj is not None and rj[1] == lin_add(i, num(1)) and rj[2] == ROWS and rk is not None and rk[1] == lin_add(i, num(1)) and rk[2] == ROWS
-            ok = okd and oks and okr
-            det = "l_ji = a_ji / a_ii=%s a_jk -= l_ji*a_ik=%s ranges i:0..rows, j,k:i+1..rows=%s" % (okd, oks, okr)
-        rep.add("row-op-pair/lu_decomp_in_place", "Doolittle step: the multiplier a_ji/a_ii (pivot is the divisor) is stored at (j,i) and used for the row update over columns i+1..rows",
-                ok, lu["body"], det, where=loc(lu["body"]))
+        check_lu_elimination(rep, pdb, lu, "row-op-pair/lu_decomp_in_place")
     sl = fn_or_missing(rep, pdb, "%s::solve_lu" % M, "anchor/solve_lu")
     if sl is not None:
         ctx = Ctx.for_fn(pdb, sl)
